@@ -35,6 +35,7 @@ STYLES = ("rest", "google", "numpydoc")
 
 def probes():
     return ["partial_doc_with_2plus_undocumented", "permuted_doc", "import_inference_cmd", "gen_prepend_cmd", "exmod_cmd",
+            "gen_infer_mixed_kinds",
             "sync_cmd", "doctrans_cmd", "openapi_cmd", "repeated_occurrences", "ops_ok_somewhere"]
 
 
@@ -44,11 +45,12 @@ def _spec(rng, name, n_lo=2, n_hi=6):
     nd = rng.randint(0, len(names))
     params = []
     for i, n in enumerate(names):
-        typ = rng.choice(gen.SIMPLE_TYPES + ("Optional[int]", "Optional[str]"))
+        typ = rng.choice(gen.SIMPLE_TYPES + ("Optional[int]", "Optional[str]", "Any", "Optional[Any]", "List[str]",
+                                             "Union[int, str]", "dict", "Optional[List[str]]"))
         default = None
         if i >= len(names) - nd:
-            default = {"int": "3", "float": "0.5", "str": "'a'", "bool": "True", "Optional[int]": "None",
-                       "Optional[str]": "None"}[typ]
+            default = {"int": "3", "float": "0.5", "str": "'a'", "bool": "True", "List[str]": "['a']", "dict": "{}",
+                       "Union[int, str]": "4"}.get(typ, "None")
         params.append({"name": n, "typ": typ, "default": default,
                        "doc": " ".join(rng.choice(gen.WORDS) for _ in range(rng.randint(2, 5))).capitalize()})
     return {"name": name, "doc": "Do the %s thing." % name, "params": params,
@@ -164,6 +166,21 @@ def command_ops(rng, pr):
         argv += ["--prepend", "PREPENDED = True\\n"]
         bump("gen_prepend_cmd")
     out.append({"kind": "cmd", "files": {"m.py": mapping}, "argv": argv})
+    # gen --parse infer over modules of different kinds in the same process
+    sa_cols = rng.sample(("dataset_name", "tfds_dir", "as_numpy", "size", "label"), rng.randint(1, 3))
+    sa_mod = ("from sqlalchemy import Boolean, Column, Integer, String\n\nBase = object\n\n\nclass Beta(Base):\n"
+              "    \"\"\"\n    Beta model\n\n" + "".join("    :cvar %s: the %s\n" % (c, c) for c in sa_cols) +
+              "    \"\"\"\n\n    __tablename__ = \"beta\"\n\n" +
+              "".join("    %s = Column(%s, doc=\"the %s\"%s)\n" % (c, rng.choice(("String", "Integer", "Boolean")), c,
+                                                                 ", primary_key=True" if i == 0 else ", default=1" if i == 1
+                                                                 else "") for i, c in enumerate(sa_cols)))
+    for files_, emit_ in (({"m.py": mapping}, rng.choice(("argparse", "sqlalchemy", "json_schema"))),
+                          ({"m.py": sa_mod}, rng.choice(("class", "argparse", "json_schema"))),
+                          ({"m.py": mapping + "\n\n" + sa_mod.split("Base = object\n", 1)[1]}, "class")):
+        out.append({"kind": "cmd", "files": files_,
+                    "argv": ["gen", "--name-tpl", "{name}Gen", "--input-mapping", "{ROOT}/m.py", "--parse", "infer", "--emit",
+                             emit_, "-o", "{ROOT}/gen_out.py"]})
+    bump("gen_infer_mixed_kinds")
     # exmod on a small package
     pkgname = rng.choice(("mypkg", "toolkit"))
     s1, s2 = _spec(rng, "Alpha", 1, 3), _spec(rng, "beta_fn", 1, 3)
@@ -175,9 +192,9 @@ def command_ops(rng, pr):
         "src/%s/sub/beta.py" % pkgname: "from typing import Optional\n\n\n" + gen.render_function(s2) +
                                         "\n__all__ = [\"beta_fn\"]\n",
     }
-    out.append({"kind": "cmd", "files": files, "sys_path": "src", "pkg": pkgname,
-                "argv": ["exmod", "-m", pkgname, "--emit", rng.choice(("class", "function", "argparse", "sqlalchemy_table")),
-                         "-o", "{ROOT}/out", "-r"]})
+    for emit_ in rng.sample(("class", "function", "argparse", "sqlalchemy_table", "sqlalchemy_hybrid"), 2):
+        out.append({"kind": "cmd", "files": files, "sys_path": "src", "pkg": pkgname,
+                    "argv": ["exmod", "-m", pkgname, "--emit", emit_, "-o", "{ROOT}/out", "-r"]})
     bump("exmod_cmd")
     # routes + openapi
     cols = rng.sample(("dataset_name", "tfds_dir", "as_numpy", "size", "label"), rng.randint(1, 3))
@@ -242,11 +259,13 @@ def plan(tier, seed, scale=1.0):
 def analyse(tasks, results):
     """Called by the runner after all children finished: compare digests per operation."""
     by_op = {}
+    raw_by_op = {}
     kinds = {}
     for r in results:
         c = r["child"]
         for pos, rec in enumerate(c["results"]):
             by_op.setdefault(rec["id"], []).append((c["k"], pos, rec["digest"]))
+            raw_by_op.setdefault(rec["id"], set()).add(rec.get("raw", rec["digest"]))
             if rec["kind"] == "ok":
                 kinds[rec["id"]] = "ok"
             kinds.setdefault(rec["id"], rec["kind"])
@@ -269,6 +288,14 @@ def analyse(tasks, results):
         digs = sorted(set(d for _, _, d in occ))
         if len(digs) > 1:
             viols.append(minimise(oid, op_by_id[oid], occ, tasks_by_k))
+        elif len(raw_by_op.get(oid, ())) > 1:
+            # identical up to object addresses: the output embeds a repr such as <ast.List object at 0x7f…>
+            viols.append({"clause": "K1",
+                          "detail": "operation %s (%s): output differs between occurrences only in an embedded memory address "
+                                    "(0x…)" % (oid, _describe(op_by_id[oid])),
+                          "sig": {"what": "memory_address_in_output", "op_kind": _kind(op_by_id[oid]).split(":")[0]},
+                          "trace": {"kind": "c10-diff", "op": {"id": oid, "op": op_by_id[oid]}, "raw": True,
+                                    "a": {"hashseed": 0, "before": []}, "b": {"hashseed": 1, "before": []}}})
     nontrivial = [oid for oid, k in kinds.items() if k == "ok"]
     samples = [{"operation": op_by_id[o]} for o in sorted(op_by_id)[:2]]
     samples.append({"history_of_interpreter_0": [i["id"] for i in tasks[0]["history"]][:40],
@@ -277,8 +304,14 @@ def analyse(tasks, results):
             "samples": samples}
 
 
+MIN_BUDGET = 70          # child-pair executions per minimised violation
+MAX_MINIMISED = 4        # further disagreeing operations are reported un-minimised (full prefixes in the trace)
+_minimised = [0]
+
+
 def minimise(oid, op, occ, tasks_by_k):
-    """(1) two interpreters, (2) equalise hash seeds -> classify, (3) delta-debug the preceding calls."""
+    """(1) two interpreters, (2) equalise hash seeds -> classify, (3) chunked delta-debugging of the preceding
+    calls, all within a fixed budget of child executions."""
     first = occ[0]
     other = next(o for o in occ if o[2] != first[2])
     ka, kb = first[0], other[0]
@@ -291,28 +324,42 @@ def minimise(oid, op, occ, tasks_by_k):
     sa, sb = tasks_by_k[ka]["hashseed"], tasks_by_k[kb]["hashseed"]
     a = {"hashseed": sa if sa != "random" else 12345, "before": prefix(ka, first[1])}
     b = {"hashseed": sb if sb != "random" else 54321, "before": prefix(kb, other[1])}
+    budget = [MIN_BUDGET if _minimised[0] < MAX_MINIMISED else 0]
+    _minimised[0] += 1
 
     def differs(a_, b_):
+        if budget[0] <= 0:
+            return False
+        budget[0] -= 1
         da = run_child(a_["before"] + [item], a_["hashseed"])["results"][-1]["digest"]
         db = run_child(b_["before"] + [item], b_["hashseed"])["results"][-1]["digest"]
         return da != db
 
     cls = "unclassified"
-    # cold: no history at all, different seeds
-    if a["hashseed"] != b["hashseed"] and differs(dict(a, before=[]), dict(b, before=[])):
-        a, b, cls = dict(a, before=[]), dict(b, before=[]), "hash_seed"
-    else:
-        # same seed, different histories
-        if differs(dict(a, hashseed=0), dict(b, hashseed=0)):
+    if budget[0] > 0:
+        if a["hashseed"] != b["hashseed"] and differs(dict(a, before=[]), dict(b, before=[])):
+            a, b, cls = dict(a, before=[]), dict(b, before=[]), "hash_seed"
+        elif differs(dict(a, hashseed=0), dict(b, hashseed=0)):
             a, b, cls = dict(a, hashseed=0), dict(b, hashseed=0), "call_history"
-            for side in (a, b):
-                i = 0
-                while i < len(side["before"]):
-                    cand = dict(side, before=side["before"][:i] + side["before"][i + 1:])
-                    if differs(cand if side is a else a, cand if side is b else b):
-                        side["before"] = cand["before"]
-                    else:
-                        i += 1
+            # keep only the commands / same-kind calls first (cheap guess), then ddmin by halving chunks
+            for side in ("a", "b"):
+                cur = a if side == "a" else b
+                if not cur["before"]:
+                    continue
+                cand = dict(cur, before=[])
+                if differs(cand if side == "a" else a, cand if side == "b" else b):
+                    cur["before"] = []
+                    continue
+                chunk = max(1, len(cur["before"]) // 2)
+                while chunk >= 1 and budget[0] > 0:
+                    i = 0
+                    while i < len(cur["before"]) and budget[0] > 0:
+                        cand = dict(cur, before=cur["before"][:i] + cur["before"][i + chunk:])
+                        if differs(cand if side == "a" else a, cand if side == "b" else b):
+                            cur["before"] = cand["before"]
+                        else:
+                            i += chunk
+                    chunk //= 2
         elif differs(a, b):
             cls = "hash_seed_and_history"
     detail = "operation %s (%s) gives different output in two interpreters: hashseed %s after %d calls vs hashseed %s after " \
@@ -341,6 +388,9 @@ def replay(trace):
     item = trace["op"]
     va = run_child(trace["a"]["before"] + [item], trace["a"]["hashseed"], verbose=[item["id"]])["results"][-1]
     vb = run_child(trace["b"]["before"] + [item], trace["b"]["hashseed"], verbose=[item["id"]])["results"][-1]
+    if trace.get("raw") and va["digest"] == vb["digest"] and va.get("raw") != vb.get("raw"):
+        return [{"clause": "K1", "detail": "outputs differ only in an embedded memory address: %s" % json.dumps(
+            va.get("outcome"))[:500], "sig": (trace.get("violation") or {}).get("sig") or {"what": "memory_address_in_output"}}]
     if va["digest"] != vb["digest"]:
         return [{"clause": "K1", "detail": "outputs differ: %s  VERSUS  %s" % (
             json.dumps(va.get("outcome"))[:600], json.dumps(vb.get("outcome"))[:600]),
